@@ -182,6 +182,7 @@ class Server(object):
         self.world = world
         self.dir = {}        # jid -> uploaded key material
         self.groups = {}     # gjid -> [member jids]
+        self.as_status = set()   # ids of 1:1 messages the server hands on as status broadcasts (from=status@broadcast, participant=author)
         self.inq = {}        # account name -> [node]  (sent by the client, not yet processed)
         self.outq = {}       # account name -> [(node, meta)]
         self.clock = 1600000000
@@ -319,6 +320,9 @@ class Server(object):
             if tgt is None:
                 return
             attrs = dict(base, **{"from": acc.jid})
+            if mid in self.as_status:
+                # a status update / broadcast-list message: it reaches each recipient from the broadcast address, the author as participant
+                attrs = dict(base, **{"from": "status@broadcast", "participant": acc.jid})
             self.push(tgt, N("message", attrs, [self._copy(e) for e in encs]), {"k": "message", "id": mid, "sender": acc.name, "group": False})
             self.world.ev("ServerFanout", id=mid, sender=acc.name, to=[tgt.name], group=False, directed=False)
 
@@ -342,7 +346,7 @@ class Server(object):
         attrs = {"id": rid, "t": t}
         if node["type"]:
             attrs["type"] = node["type"]
-        if to.endswith("@g.us"):
+        if to.endswith("@g.us") or to.endswith("@broadcast"):
             tgt = self.by_jid(node["participant"])
             attrs.update({"from": to, "participant": acc.jid})
         else:
